@@ -67,6 +67,8 @@ var c16Files = Files{
 	"p_upper.vuego":                 `<template include="up_a.vuego"></template><template include="up_b.vuego"></template><template include="up_a.vuego"></template><div v-for="i in three"><template include="up_b.vuego"></template></div><u V-ONCE>UD</u>`,
 	"up_a.vuego":                    `<style V-ONCE>UA</style><b>a</b>`,
 	"up_b.vuego":                    `<script v-Once>UB</script><i V-Once>UC</i>`,
+	"p_prevonce.vuego":              `<div v-for="i in three"><script v-once v-pre>QA</script><b v-pre v-once>QB</b></div><template include="pv_c.vuego"></template><template include="pv_c.vuego"></template>`,
+	"pv_c.vuego":                    `<style v-pre v-once>QC</style><i>c</i>`,
 	"p_top.vuego":                   `<b v-once>O1</b><p>x</p><b v-once>O2</b><b v-once>O3</b>`,
 	"p_for.vuego":                   `<div v-for="i in three"><b v-once>O1</b><i>{{ i }}</i><u v-once>O2</u></div>`,
 	"p_forself.vuego":               `<b v-for="i in three" v-once>O1</b><i v-for="j in three">I</i>`,
@@ -118,6 +120,7 @@ var c16Progs = []c16Prog{
 	{"tmplonce", "p_tmplonce.vuego", map[string]int{"OR": 1}, nil, "", nil},
 	{"preonce", "p_preonce.vuego", map[string]int{"PA": 1, "PB": 1, "PC": 1, "PD": 1}, nil, "", nil}, // class="auto" is marked v-once by the processor's PreProcess
 	{"upper", "p_upper.vuego", map[string]int{"UA": 1, "UB": 1, "UC": 1, "UD": 1}, nil, "", nil},     // attribute names are case-insensitive
+	{"prevonce", "p_prevonce.vuego", map[string]int{"QA": 1, "QB": 1, "QC": 1}, nil, "", nil},        // v-pre keeps the content as written; the element is still emitted once
 	{"lay", "p_lay.vuego", map[string]int{"O1": 1, "OA": 1}, map[string]int{"OL": 1, "OL2": 1, "OO": 1, "OA": 2}, "", nil},
 }
 
@@ -137,7 +140,7 @@ type c16Case struct {
 
 func (c *c16Case) Key() string { return core.KeyOf(c) }
 
-var c16Markers = []string{"UA", "UB", "UC", "UD", "PA", "PB", "PC", "PD", "BF", "BN", "LC", "LD", "LE", "LF", "LG", "M01", "M02", "M03", "M04", "M05", "M06", "M07", "M08", "M09", "M10", "M11", "M12", "N01", "N02", "N03", "N04", "N05", "N06", "N07", "N08", "N09", "N10", "N11", "OX", "OY", "OZ2", "OZ", "OG", "OH", "OK", "OR", "OL1", "OL2", "OL3", "OL4", "OE2", "OE", "OF", "OI", "LA", "LB", "OT", "OU", "OW", "ON", "N1W", "N1S", "N2W", "N2S", "O1", "O2", "O3", "OA", "OB2", "OB", "OC", "OAC", "OS", "OL2", "OL", "OO"}
+var c16Markers = []string{"QA", "QB", "QC", "UA", "UB", "UC", "UD", "PA", "PB", "PC", "PD", "BF", "BN", "LC", "LD", "LE", "LF", "LG", "M01", "M02", "M03", "M04", "M05", "M06", "M07", "M08", "M09", "M10", "M11", "M12", "N01", "N02", "N03", "N04", "N05", "N06", "N07", "N08", "N09", "N10", "N11", "OX", "OY", "OZ2", "OZ", "OG", "OH", "OK", "OR", "OL1", "OL2", "OL3", "OL4", "OE2", "OE", "OF", "OI", "LA", "LB", "OT", "OU", "OW", "ON", "N1W", "N1S", "N2W", "N2S", "O1", "O2", "O3", "OA", "OB2", "OB", "OC", "OAC", "OS", "OL2", "OL", "OO"}
 
 // c16Proc is registered on every engine: its pre-processing step marks elements of class "auto"
 // with v-once (a processor that de-duplicates injected assets would do this).
@@ -259,7 +262,7 @@ func init() {
 	core.Register(&core.Check{
 		ID:    "C16",
 		Level: "model_checking",
-		Rule: "33 placements of 1-4 v-once elements (v-once nested inside v-once at top level, in a loop and in two components included from a loop, in a component whose root is a <template> tag (inside, on and after it), on v-else / v-else-if members and on the v-else of an empty v-for inside a loop, together with v-if, together with v-for and a v-if that is false for the first item, on chain members that are loops themselves, in slot content a page hands to its layout (one and two slot templates), top level, inside v-for, on the looped element itself, in a component included 1..3 times, in two different components, in two components whose files have the same name in different directories, in a component included from a loop, nested components, slot content used once / twice / in a loop, v-if branches, page + two layouts each including the same component, twelve v-once elements in one file (IDs of more than one digit), a string template rendered on a template object that has loaded the very file the string includes, the directive spelled in capitals (V-ONCE, v-Once) in two components, elements a node processor marks v-once in its pre-processing step (the page's nodes: components are not pre-processed)) x 7 entry points (Load+Render, RenderFile, Vue.Render, Vue.RenderFragment, RenderString/Byte/Reader) x every history of <=L renders on one long-lived engine; " +
+		Rule: "34 placements of 1-4 v-once elements (v-once nested inside v-once at top level, in a loop and in two components included from a loop, in a component whose root is a <template> tag (inside, on and after it), on v-else / v-else-if members and on the v-else of an empty v-for inside a loop, together with v-if, together with v-for and a v-if that is false for the first item, on chain members that are loops themselves, in slot content a page hands to its layout (one and two slot templates), top level, inside v-for, on the looped element itself, in a component included 1..3 times, in two different components, in two components whose files have the same name in different directories, in a component included from a loop, nested components, slot content used once / twice / in a loop, v-if branches, page + two layouts each including the same component, twelve v-once elements in one file (IDs of more than one digit), a string template rendered on a template object that has loaded the very file the string includes, v-once together with v-pre (in a loop, in a component included twice), the directive spelled in capitals (V-ONCE, v-Once) in two components, elements a node processor marks v-once in its pre-processing step (the page's nodes: components are not pre-processed)) x 7 entry points (Load+Render, RenderFile, Vue.Render, Vue.RenderFragment, RenderString/Byte/Reader) x every history of <=L renders on one long-lived engine; " +
 			"oracle: every marked source element occurs exactly once per render (per link of a layout chain), unreached ones zero times. states = renders checked; non-trivial = all",
 		Bounds:      map[string]string{"quick": "L=2 (all ordered pairs of programs)", "thorough": "L=3 (all ordered triples)"},
 		Assumptions: []string{"markers are counted textually as >MARK< in the output"},
